@@ -442,6 +442,12 @@ def c06_key(aid, events, outs):
     if (o.get("nested-spelling") == "true" and o.get("spelling-verdict") == "error" and o.get("flat-verdict") in ("silent", "warning")
             and aid in ("nested-spelling-documented-class", "nested-spelling-same-verdict-as-flat")):
         return "c06:item-type-spelled-as-nested-optional-or-union-rejected"
+    if aid == "retargeted-alias-has-the-class-of-the-change-made-in-place":
+        # known finding: only when the record the alias used to name ALSO changed (its own non-nil change is the one kept for the old definition)
+        if o.get("retarget-previous-target-also-changed") == "true" and o.get("retargeted-class") in ("0", "1") and o.get("twin-class") in ("1", "2") \
+                and int(o.get("retargeted-class")) < int(o.get("twin-class")):
+            return "c06:alias-retarget-accepted-when-the-previous-target-also-changed"
+        return "c06:alias-retarget:" + aid
     if o.get("closed-pair") == "true":
         return "c06:type-arguments-not-compared-through-differently-named-closed-aliases"
     return "c06:%s:%s" % (aid, o.get("edit", "?"))
@@ -1409,6 +1415,13 @@ PARTS = {
                                     "27 edit kinds, alone and combined with a compatible change of the record they refer to; number pair and vector lengths symbolic; a changed enum value is any pair of "
                                     "different boundary values (change of sign included) of a symbolic base type out of int8/16/32/64, uint8/64")),
         C06_REMOVALS_PART,
+        (G, "gosym_part", dict(name="c06_alias_retarget", entry="internal/zzverif.C06Retarget", args_quick=(4,), args_thorough=(8,), key_fn=c06_key,
+                               required_sites=("models-validate-and-verdict-without-panic", "retargeted-alias-has-the-class-of-the-change-made-in-place"),
+                               assumptions=["metamorphic oracle: the class the REAL analyser gives the same structural change made in place (R {a: P} -> R {a: Q}, step typed R)",
+                                            "previous: R {a: P, b}, A = R, stream step of A; latest: R kept (unchanged or with an added optional field), R2 {a: Q, b}, A = R2, R / R2 declared in "
+                                            "either order; P, Q over 4 (thorough: 8) primitives"],
+                               desc="an alias is retargeted to a new record that carries a changed copy of the structure while the record it used to name stays: the real ValidateEvolution gives the "
+                                    "step typed by the alias the verdict class of the same change made in place, in every declaration order")),
         (G, "gosym_part", dict(name="c06_wrapper_depth", entry="internal/zzverif.C06Wrappers", args_quick=(3, 4), args_thorough=(3, 8),
                                extra_thorough=("-max-paths", "400000"),
                                required_sites=("models-validate-and-verdict-without-panic", "unchanged-wrapped-type-is-silent", "wrapped-change-has-the-class-of-the-bare-change"),
